@@ -431,7 +431,7 @@ class _Inliner:
             body = body[1:]
         if factory is not None:
             body[0].name = prefix + factory.name  # the closure, defined here under a name of its own
-        retvar = f"_inl{k}_result"
+        retvar = f"_inlret{k}"
         block = InlineBlock(test=ast.Constant(value=True), body=[], orelse=[])
         ast.copy_location(block, call)
         ren = _Renamer(mapping)
@@ -457,7 +457,7 @@ class _Inliner:
             st = _Ret().visit(st)
             new_body.append(st)
         init = ast.Assign(targets=[ast.Name(id=retvar, ctx=ast.Store())], value=ast.Constant(value=None), lineno=call.lineno, col_offset=0)
-        block.body = [init] + binds + (new_body or [ast.Pass(lineno=call.lineno, col_offset=0)])
+        block.body = binds + [init] + (new_body or [ast.Pass(lineno=call.lineno, col_offset=0)])
         ast.fix_missing_locations(block)
         # every instantiation is its own set of call sites: the copies keep the helper's line numbers (reports point there)
         # but get a column offset of their own, so that two inlined copies of one helper are told apart
@@ -474,6 +474,8 @@ class _Inliner:
             if getattr(st, "value", None) is None:
                 return None
             holder, field = st, root_field
+        elif isinstance(st, ast.Raise) and st.exc is not None and st.cause is None:
+            holder, field = st, "exc"  # `raise make_error(..)`: the factory's body, then `raise <its result>`
         elif isinstance(st, ast.If) and not isinstance(st, InlineBlock) and isinstance(st.test, ast.BoolOp) and isinstance(st.test.op, ast.And) and not st.orelse:
             # `if a and helper(..) [and c]: body`  ->  `if a: <inlined>; if <result> [and c]: body`
             for i in range(1, len(st.test.values)):
@@ -547,6 +549,14 @@ class _Inliner:
         self.done += 1
         if isinstance(st, ast.Expr) and node is root:
             return [block]  # the value is discarded
+        if type(st) is ast.Assign and node is root and len(st.targets) == 1 and isinstance(st.targets[0], ast.Name):
+            # `x = helper(..)`: the helper's returns assign x themselves - no `x = <result>` copy, so that a test of x right
+            # after the call is still a test of what the helper returned on that path
+            x = st.targets[0].id
+            for y in ast.walk(block):
+                if isinstance(y, ast.Name) and y.id == retvar:
+                    y.id = x
+            return [block]
         setter(ast.copy_location(ast.Name(id=retvar, ctx=ast.Load()), node))
         return [block, st]
 
